@@ -177,3 +177,59 @@ def replay_bistr(payload):
         except Exception as e:
             return {'string': s[:40], 'len': len(s), 'nbytes': len(s.encode()), 'observed': repr(e), 'reproduced': True}
     return {'reproduced': False, 'candidates': len(cands)}
+
+
+def publication_structural(rep, prop='C20'):
+    """C20.shared_lines.publish_after_fill (structural, all paths of bistr.c2b / bistr.b2c): bistr line objects are shared
+    by reference between a tree and its copies, so their lazily built index arrays are cross-tree (and cross-thread)
+    state.  Obligation: an index array becomes reachable from the instance (self._c2b / self._b2c) and the fast-path
+    lookup is installed (self.c2b / self.b2c = self._x_lookup) only AFTER the last store into that array - then every
+    array another thread can observe is complete, whatever the interleaving, because a complete array is never
+    written again and all complete arrays of one (immutable) string are equal."""
+    import ast
+    from pyvc import frontend
+
+    class _S:
+        name = 'publication order (structural)'
+        notes = 'top-level statement order of the function body; the array local is the one assigned from _make_array'
+    for meth in ('c2b', 'b2c'):
+        ident = f'astutil:bistr.{meth}'
+        loc = frontend.locate(ident)
+        rep.function(loc, _S)
+        body = loc.node.body
+        arr = None
+        for st in body:
+            if isinstance(st, ast.Assign) and isinstance(st.value, ast.Call) and '_make_array' in ast.unparse(st.value.func):
+                names = [t.id for t in st.targets if isinstance(t, ast.Name)]
+                arr = names[0] if names else None
+        if arr is None:
+            rep.checker_error(f'{ident}: cannot identify the local index array (anchor changed)')
+            continue
+        fills, pubs = [], []
+        for i, st in enumerate(body):
+            for n in ast.walk(st):
+                if (isinstance(n, ast.Subscript) and isinstance(n.ctx, ast.Store) and isinstance(n.value, ast.Name)
+                        and n.value.id == arr):
+                    fills.append(i)
+                if isinstance(n, ast.Assign):
+                    self_t = [t for t in n.targets if isinstance(t, ast.Attribute) and isinstance(t.value, ast.Name)
+                              and t.value.id == 'self']
+                    v = n.value
+                    is_arr = (isinstance(v, ast.Name) and v.id == arr) or \
+                             (isinstance(v, ast.Call) and '_make_array' in ast.unparse(v.func))
+                    is_lookup = isinstance(v, ast.Attribute) and v.attr.endswith('_lookup')
+                    if self_t and (is_arr or is_lookup):
+                        nested = n is not st
+                        pubs.append((i, ast.unparse(n)[:60], nested))
+        if not fills or not pubs:
+            rep.checker_error(f'{ident}: no fill / publication statement recognised (anchor changed)')
+            continue
+        ok = all(i > max(fills) and not nested for i, _, nested in pubs)
+        name = f'{prop}.shared_lines.publish_after_fill.{meth}'
+        rep.other('structural', name, ok,
+                  detail=f'array local {arr!r}: last store at body statement {max(fills)}, publications '
+                         f'{[(i, s) for i, s, _ in pubs]}',
+                  key=name, replay={'function': ident, 'array': arr, 'last_fill_stmt': max(fills),
+                                    'publications': [(i, s) for i, s, _ in pubs],
+                                    'verifier_output': 'a publication precedes (or is nested in) the fill: another thread '
+                                                       'sharing this line object can observe a partially filled index'})
